@@ -83,23 +83,34 @@ def pairing_reference(evals, lkey, pkey):
 def fin_params(tier):
     shapes = [(2,2,1),(2,2,2)] if tier == 'quick' else [(2,2,1),(2,2,2),(3,2,1),(3,2,2)]    # 3x3x1 (4^9 existence/length patterns per parameter set) ran past an hour and is left out
     return [dict(ne=a,nl=b,nv=c,n=n,lp=lp) for a,b,c in shapes for n in (None,'min',1,2,3) for lp in (('learner_id','environment_id'),('family','environment_id'),('learner_id','a'))
-            if not (lp != ('learner_id','environment_id') and n in (1,3))]
+            if not (lp != ('learner_id','environment_id') and n in (1,3))] + [dict(ne=a,nl=b,nv=c,n=n,lp=None) for a,b,c in shapes for n in ('min',1,2,3)]     # lp=None: the length constraint alone
 
 def _classify_fin(v):
     w = v['what']
-    if 'evaluations kept' in w and v['choices'].get('nv_gt1'): return "pairing group with a learner under two evaluators and another learner missing is kept"
+    if 'evaluations kept' in w and 'l=None' not in w and v['choices'].get('nv_gt1'): return "pairing group with a learner under two evaluators and another learner missing is kept"
     return w.split(':')[0][:100]
 
-@obligation('C18','where_fin', bounds={'quick':"<=2 environments x 2 learners x <=2 evaluators; which triples exist enumerated, lengths in {1,2,3} enumerated (fixed pattern when 2 evaluators); rewards symbolic; n in {None,'min',1,2,3}; (l,p) in {(learner_id,environment_id),(family,environment_id),(learner_id,a)} with duplicate parameter values",
+@obligation('C18','where_fin', bounds={'quick':"<=2 environments x 2 learners x <=2 evaluators; which triples exist enumerated, lengths in {1,2,3} enumerated (one of three fixed patterns when 2 evaluators); rewards symbolic; n in {None,'min',1,2,3}; (l,p) in {(learner_id,environment_id),(family,environment_id),(learner_id,a)} with duplicate parameter values, or no (l,p) at all (length constraint alone)",
                                        'thorough':"up to 3x2x1 and 3x2x2"},
             functions=FUNCS, params=fin_params, classify=_classify_fin, budget={'quick':80,'thorough':1500})
 def where_fin(sym, ne, nl, nv, n, lp):
-    res, evals = build(sym, ne, nl, nv, fixed_len=(None if nv == 1 else (lambda e,l,v: (e+2*l+v) % 3 + 1)))
+    if nv == 1: fl = None
+    else:
+        pat = sym.choice('lengths', ['mixed','first_short','last_short'])          # with 2 evaluators the lengths follow one of three fixed patterns
+        fl = {'mixed': (lambda e,l,v: (e+2*l+v) % 3 + 1), 'first_short': (lambda e,l,v: [1,3][v]), 'last_short': (lambda e,l,v: [3,1][v])}[pat]
+    res, evals = build(sym, ne, nl, nv, fixed_len=fl)
     sym.choices['nv_gt1'] = nv > 1
     if not evals: sym.assume(False)
-    l, p = lp
-    out = res.where_fin(n, l, p) if sym.flag('public') else res.filter_fin(n, l, p)
-    keep = pairing_reference(evals, l, p)
+    if lp is None:
+        # the length constraint alone is only asked to keep consistent what was consistent: every listed component has an evaluation in the source
+        if not ({k[0] for k in evals} == set(range(ne)) and {k[1] for k in evals} == set(range(nl)) and {k[2] for k in evals} == set(range(nv))): sym.assume(False)
+        l = p = None
+        out = res.where_fin(n) if sym.flag('public') else res.filter_fin(n)
+        keep = list(evals)
+    else:
+        l, p = lp
+        out = res.where_fin(n, l, p) if sym.flag('public') else res.filter_fin(n, l, p)
+        keep = pairing_reference(evals, l, p)
     expected = {k: evals[k] for k in keep}
     if n == 'min' and expected:
         m = min(len(v) for v in expected.values()); expected = {k: v[:m] for k,v in expected.items()}
